@@ -46,6 +46,10 @@ type RAction struct {
 	// ROCache (json / quiet): the cache file is read-only while this invocation lasts. spok may stop
 	// with an error about its cache; a run that reports success reports all of it.
 	ROCache bool `json:"ro_cache,omitempty"`
+	// BadCache (show / vars): while this invocation lasts the cache file is damaged ("cut": the first half
+	// of its bytes, as after a full disk; "dir": a directory of that name). Listing what the spokfile
+	// defines has nothing to do with the cache.
+	BadCache string `json:"bad_cache,omitempty"`
 }
 
 // ReportCase is a C20 case.
@@ -53,7 +57,9 @@ type ReportCase struct {
 	// ProjDir names the directory holding the spokfile ("" = proj)
 	ProjDir string `json:"proj_dir,omitempty"`
 	// Invoke: how spok is pointed at the project (sandbox.Box.Invoke)
-	Invoke  string      `json:"invoke,omitempty"`
+	Invoke string `json:"invoke,omitempty"`
+	// Outputs: "files" = standard output and error are regular files (sandbox.Box.FileOutputs)
+	Outputs string      `json:"outputs,omitempty"`
 	Vars    [][2]string `json:"vars"`
 	Tasks   []RTask     `json:"tasks"`
 	Actions []RAction   `json:"actions"`
@@ -75,12 +81,13 @@ var payloads = []payload{
 	{`x=1;y`, "x=1;y"}, {`tab\there`, "tab\there"}, {`\n`, "\n"}, {"a|b&c", "a|b&c"}, {"  lead", "  lead"},
 }
 var reportVarNames = []string{"VERSION", "NAME", "other", "FLAG_X", "Zed", "GIT_HASH", "RELEASE_CODENAME"}
-var reportVarValues = []string{"0.3.0", "spok", "a b", "", "--flag=1", "x/y", "50%", "%d%%"}
+var reportVarValues = []string{"0.3.0", "spok", "a b", "", "--flag=1", "x/y", "50%", "%d%%", "fish & chips", "<in >out", "1.2+dev", "a=b&c=d", "{not a ref}", "$HOME", "back\\slash"}
 
 func genReport(t *rapid.T) ReportCase {
 	c := genReportBody(t)
 	c.ProjDir = genProjDir(t)
 	c.Invoke = genInvoke(t)
+	c.Outputs = genOutputs(t)
 	c.DotEnv = rapid.IntRange(0, 2).Draw(t, "dotenv") == 0
 	c.JoinPair = rapid.IntRange(0, 3).Draw(t, "join_pair") == 0
 	if c.Invoke == "" && rapid.IntRange(0, 2).Draw(t, "nested") == 0 {
@@ -128,6 +135,9 @@ func genReportBody(t *rapid.T) ReportCase {
 			perm := rapid.Permutation(names[:n]).Draw(t, "reqorder")
 			a.Tasks = append([]string(nil), perm[:rapid.IntRange(1, n).Draw(t, "nreq")]...)
 			a.ROCache = i > 0 && rapid.IntRange(0, 5).Draw(t, "ro_cache") == 0
+		}
+		if (a.Kind == "show" || a.Kind == "vars") && i > 0 && rapid.IntRange(0, 2).Draw(t, "bad_cache") == 0 {
+			a.BadCache = rapid.SampledFrom([]string{"cut", "dir"}).Draw(t, "bad_cache_kind")
 		}
 		c.Actions = append(c.Actions, a)
 	}
@@ -271,6 +281,7 @@ func execReport(s *ev.Shard, b *sandbox.Box, c ReportCase) *rp.Fail {
 	if err := b.ResetFor(c.ProjDir, c.Invoke); err != nil {
 		return &rp.Fail{Sig: "harness", Msg: err.Error()}
 	}
+	b.FileOutputs = c.Outputs == "files"
 	src := c.source()
 	files := map[string]string{"spokfile": src, "in.txt": "input"}
 	if c.DotEnv {
@@ -338,6 +349,25 @@ func execReport(s *ev.Shard, b *sandbox.Box, c ReportCase) *rp.Fail {
 	for ai, a := range c.Actions {
 		_ = os.Remove(logPath)
 		desc := fmt.Sprintf("spokfile:\n%s(.env present: %v, started in: %s) action %d of %v", src, c.DotEnv, map[string]string{"": "the project", "plain": "docs/", "decoy": "docs/ (which holds a directory called spokfile)"}[c.Nested], ai, c.Actions)
+		restoreCache := func() {}
+		if a.BadCache != "" && (a.Kind == "show" || a.Kind == "vars") {
+			cp := filepath.Join(b.Proj, ".spok", "cache.json")
+			if data, err := os.ReadFile(cp); err == nil {
+				if a.BadCache == "dir" {
+					_ = os.Remove(cp)
+					_ = os.Mkdir(cp, 0o755)
+				} else {
+					_ = os.WriteFile(cp, data[:len(data)/2], 0o644)
+				}
+				_ = b.Own()
+				restoreCache = func() {
+					_ = os.RemoveAll(cp)
+					_ = os.WriteFile(cp, data, 0o644)
+					_ = b.Own()
+				}
+				desc += fmt.Sprintf(" [cache file damaged for this invocation: %s]", a.BadCache)
+			}
+		}
 		switch a.Kind {
 		case "json", "quiet":
 			flag := "--" + a.Kind
@@ -508,6 +538,7 @@ func execReport(s *ev.Shard, b *sandbox.Box, c ReportCase) *rp.Fail {
 				}
 			}
 		}
+		restoreCache()
 	}
 	if s != nil {
 		multi := 0
